@@ -140,6 +140,8 @@ func (q *Queue) Add(elem *queue.Elem) (err error) {
 	var dropBytes []byte
 	var dropElem *queue.Elem
 	var drop bool
+	// dropUnread indicates the dropped inflight message has not been read by ReadInflight.
+	var dropUnread bool
 	defer func() {
 		conn.Close()
 		q.cond.L.Unlock()
@@ -150,7 +152,9 @@ func (q *Queue) Add(elem *queue.Elem) (err error) {
 		if drop {
 			if dropErr == queue.ErrDropExpiredInflight {
 				q.notifier.NotifyInflightAdded(-1)
-				q.current--
+				if !dropUnread {
+					q.current--
+				}
 			}
 			if dropBytes == nil {
 				q.notifier.NotifyDropped(elem, dropErr)
@@ -185,29 +189,34 @@ func (q *Queue) Add(elem *queue.Elem) (err error) {
 			if err != nil {
 				return
 			}
-			// inflight message
-			if i < q.current && queue.ElemExpiry(now, e) {
+			// inflight message (after Init, the ones behind q.current have not been read by ReadInflight yet)
+			if (i < q.current || e.ID() != 0) && queue.ElemExpiry(now, e) {
 				dropBytes = b
 				dropElem = e
 				dropErr = queue.ErrDropExpiredInflight
+				dropUnread = i >= q.current
 				return
 			}
 			// non-inflight message
 			if i >= q.current {
-				if i == q.current {
+				pub, ok := e.MessageWithID.(*queue.Publish)
+				// After Init, the inflight messages (publish or pubrel) stay behind q.current until ReadInflight has drained them.
+				if !ok || pub.ID() != 0 {
+					continue
+				}
+				if frontElem == nil {
 					frontBytes = b
 					frontElem = e
 				}
-				// drop qos0 message in the queue
-				pub := e.MessageWithID.(*queue.Publish)
 				// drop expired non-inflight message
-				if pub.ID() == 0 && queue.ElemExpiry(now, e) {
+				if queue.ElemExpiry(now, e) {
 					dropBytes = b
 					dropElem = e
 					dropErr = queue.ErrDropExpired
 					return
 				}
-				if pub.ID() == 0 && pub.QoS == packets.Qos0 && dropElem == nil {
+				// drop qos0 message in the queue
+				if pub.QoS == packets.Qos0 && dropElem == nil {
 					dropBytes = b
 					dropElem = e
 				}
